@@ -18,6 +18,15 @@
      did_close          close_lock  | documents.write().await;remove = CloseRemove (guard kept!)
                         close_publish| client.publish(clear).await   = ClosePublish (guard dropped)
 
+   An await is modelled as a possible suspension BEFORE its effect ("any await may suspend").
+   Measured on the real server: `client.publish_diagnostics(..).await` is enqueue + flush on a
+   futures mpsc channel of capacity 1; the enqueue never waits, the flush parks the handler whenever
+   more than one message is queued, i.e. it really suspends AFTER the enqueue.  A run with
+   suspend-after points is a run of this model in which each publish segment follows its predecessor
+   immediately and guards are released earlier, so the model over-approximates it (the stale store is
+   reachable on the unpatched server through these natural suspension points: checks/c18.py
+   NATURAL_STALE).
+
    tokio's RwLock is modelled by its exclusion only (a segment that must take the lock is enabled
    only when it can); tokio's FIFO fairness removes schedules, never adds any, so the model
    over-approximates the real server.  tower-lsp: handlers start in arrival order, <= 4 in flight.
